@@ -197,7 +197,7 @@ class Adapter(EnvAdapter):
                    props=["C01", "C03", "C04", "C05", "C07", "C11", "C12"])
                 for mz, k, tl in (("sealed", 3, None), ("sealed", 1, 7), ("mini", 5, None))]
         return self._base_configs(tier) + late + [_c(f"sealed_t{t}_sweep", "sealed", t, episodes=1, max_steps=t + 2, policies=["explore"],
-                                              probe_every=0, props=["C03", "C11"]) for t in ts]
+                                              probe_every=0, props=["C01", "C03", "C11", "C12"]) for t in ts]
 
     def _base_configs(self, tier):
         if tier == "quick":
